@@ -60,6 +60,9 @@ type normalizer struct {
 	Log     []string
 	// [std] normalize_std.go: predicate literals that were expanded in place (their text is gone from the file)
 	consumed map[*ast.FuncLit]bool
+	// function-typed parameters of a helper being inlined whose argument is a method value `x.m` of a stable
+	// receiver: calls of the parameter in the inlined body are spelled `<temp>.m(..)` (funcParamSubst)
+	subst map[types.Object]string
 }
 
 type textEdit struct {
@@ -484,6 +487,18 @@ func (nz *normalizer) bodyText(callee types.Object, label string, results []stri
 	edits := nz.stmtEdits(pk, file, d.Body)
 	// [std] fix: a closure of the callee whose calls were inlined stays "used" in the inlined copy as well
 	edits = append(edits, nz.closureKeepEdits(d.Body.Pos(), d.Body.End())...)
+	if len(nz.subst) > 0 {
+		ast.Inspect(d.Body, func(n ast.Node) bool {
+			if c, ok := n.(*ast.CallExpr); ok {
+				if fid, ok := c.Fun.(*ast.Ident); ok {
+					if rep, ok := nz.subst[pk.TypesInfo.Uses[fid]]; ok {
+						edits = append(edits, textEdit{nz.off(fid.Pos()), nz.off(fid.End()), rep, 500})
+					}
+				}
+			}
+			return true
+		})
+	}
 	if label != "" {
 		named := namedResults(d)
 		var lits []*ast.FuncLit
@@ -623,6 +638,14 @@ func (nz *normalizer) expansion(pk *packages.Package, file *ast.File, site *inli
 			fmt.Fprintf(&body, "%s := %s_a%d; _ = %s; ", pnames[i], id, i, pnames[i])
 		} else {
 			fmt.Fprintf(&body, "_ = %s_a%d; ", id, i)
+		}
+		if recvText, meth, okM := nz.stableMethodValue(info, a); okM && pnames[i] != "_" && nz.onlyCalled(callee, sig.Params().At(i)) {
+			fmt.Fprintf(&binds, "%s_f%d := %s; _ = %s_f%d; ", id, i, recvText, id, i)
+			if nz.subst == nil {
+				nz.subst = map[types.Object]string{}
+			}
+			nz.subst[sig.Params().At(i)] = fmt.Sprintf("%s_f%d.%s", id, i, meth)
+			defer delete(nz.subst, sig.Params().At(i))
 		}
 	}
 	// named results are ordinary locals of the inlined body
@@ -1090,4 +1113,80 @@ func (nz *normalizer) findClosures(pk *packages.Package, fd *ast.FuncDecl) {
 		nz.decl[o] = &ast.FuncDecl{Name: idents[o], Type: lit.Type, Body: lit.Body}
 		nz.declPkg[o] = pk
 	}
+}
+
+// stableMethodValue: e is a method value `x.m` (pointer receiver method on a pointer x, no promotion through
+// embedded fields, x an identifier of a local variable / parameter / receiver or a chain of field selections from
+// one). Calling `t.m(..)` on a copy t of x taken where the method value was formed is then the same call.
+func (nz *normalizer) stableMethodValue(info *types.Info, e ast.Expr) (recvText, method string, ok bool) {
+	sel, isSel := ast.Unparen(e).(*ast.SelectorExpr)
+	if !isSel {
+		return "", "", false
+	}
+	si, has := info.Selections[sel]
+	if !has || si.Kind() != types.MethodVal || len(si.Index()) != 1 {
+		return "", "", false
+	}
+	fn, isFn := si.Obj().(*types.Func)
+	if !isFn {
+		return "", "", false
+	}
+	rsig := fn.Type().(*types.Signature)
+	if rsig.Recv() == nil {
+		return "", "", false
+	}
+	if _, wantPtr := rsig.Recv().Type().(*types.Pointer); !wantPtr {
+		return "", "", false
+	}
+	if _, havePtr := info.TypeOf(sel.X).Underlying().(*types.Pointer); !havePtr {
+		return "", "", false
+	}
+	x := ast.Unparen(sel.X)
+	for {
+		switch y := x.(type) {
+		case *ast.Ident:
+			v, isVar := info.Uses[y].(*types.Var)
+			if !isVar || v.Parent() == nil || v.Parent() == v.Pkg().Scope() {
+				return "", "", false // package-level variables can change under the callee's feet
+			}
+			return nz.text(sel.X), sel.Sel.Name, true
+		case *ast.SelectorExpr:
+			if fs, has := info.Selections[y]; !has || fs.Kind() != types.FieldVal {
+				return "", "", false
+			}
+			x = ast.Unparen(y.X)
+		default:
+			return "", "", false
+		}
+	}
+}
+
+// onlyCalled: every use of parameter p in the body of callee is the function position of a call; p is never
+// assigned, never has its address taken and is not used as a value.
+func (nz *normalizer) onlyCalled(callee types.Object, p *types.Var) bool {
+	d := nz.decl[callee]
+	pk := nz.declPkg[callee]
+	if d == nil || pk == nil || d.Body == nil {
+		return false
+	}
+	callPos := map[*ast.Ident]bool{}
+	ast.Inspect(d.Body, func(n ast.Node) bool {
+		if c, ok := n.(*ast.CallExpr); ok {
+			if id, ok := c.Fun.(*ast.Ident); ok {
+				callPos[id] = true
+			}
+		}
+		return true
+	})
+	ok, uses := true, 0
+	ast.Inspect(d.Body, func(n ast.Node) bool {
+		if id, isId := n.(*ast.Ident); isId && pk.TypesInfo.Uses[id] == types.Object(p) {
+			uses++
+			if !callPos[id] {
+				ok = false
+			}
+		}
+		return true
+	})
+	return ok && uses > 0
 }
